@@ -1,4 +1,3 @@
-use vstd::std_specs::iter::IteratorSpec;
 mod slice { pub use core::slice::Iter; }
 impl<'a> Unpacker<'a> {
     // the bytes not yet consumed
@@ -99,3 +98,19 @@ fn vx_drain32(it: &mut core::slice::Iter<i32>) ensures (*final(it)).remaining().
 fn vx_copied(o: Option<&i32>) -> (r: Option<i32>)
     ensures r is Some <==> o is Some, o is Some ==> r->Some_0 == *o->Some_0,
 { match o { Some(x) => Some(*x), None => None } }
+
+// ---- string_to_ints ----------------------------------------------------------------------------------------------------------------
+#[verifier::external_body]
+fn vx_itermut_len(it: &core::slice::IterMut<i32>) -> (r: usize) ensures r == it.remaining().len(), { it.len() }
+fn vx_size_of_i32() -> (r: usize) ensures r == 4, { 4 }
+// byte j of the zero-padded string
+spec fn sbyte(s: Seq<u8>, j: int) -> u8 { if 0 <= j < s.len() { s[j] } else { 0u8 } }
+spec fn wadd80(b: u8) -> u8 { if b >= 0x80 { (b - 0x80) as u8 } else { (b + 0x80) as u8 } }
+// word i of the integer form of `s` in a field of n words
+spec fn sword(s: Seq<u8>, i: int, n: int) -> i32 {
+    let v0 = wadd80(sbyte(s, 4 * i));
+    let v1 = wadd80(sbyte(s, 4 * i + 1));
+    let v2 = wadd80(sbyte(s, 4 * i + 2));
+    let v3 = if 4 * i + 3 < s.len() { wadd80(s[4 * i + 3]) } else if i == n - 1 { 0u8 } else { 0x80u8 };
+    (v0 as i32) << 24 | (v1 as i32) << 16 | (v2 as i32) << 8 | (v3 as i32)
+}
